@@ -230,6 +230,7 @@ func (in *Interp) RunHarness(fn *ssa.Function, args []Value, inits ...string) (e
 	for _, p := range inits {
 		in.RunInit(p)
 	}
+	defer in.StopGoroutines()
 	in.CallFunction(fn, args, nil)
 	return nil
 }
